@@ -185,19 +185,31 @@ def main(tier, seed):
                     queries.append(whit_query(ads, model, par, t, temp, p_t, p_c, p_sat, hv_t, loads, out))
                     meta.append(("whit", key, sig, {"adsorbate": aname, "T": temp, "params": par, "loading": loads, "returned_loading": [float(v) for v in out["loading"]],
                                                      "enthalpy": [float(v) for v in out["enthalpy_sorption"]], "p_triple": p_t, "p_sat": p_sat, "p_critical": p_c}))
-            # point isotherm entry: the method fits the description itself and reports it
-            if thorough or (ai + ti + seed) % 3 == 0:
+            # point isotherm entry: the method fits the description itself and reports it; the isotherm is handed over in every
+            # stored representation of spec WhitStorage (pressure unit / relative mode / degC)
+            for si, st in enumerate(space["whit_storage"]):
+                if not (thorough or (ai + ti + si + seed) % 3 == 0):
+                    continue
                 for model in ("Langmuir", "Toth"):
                     K = 1.0 / math.sqrt(0.2 * p_t * 3.0 * p_c)
                     par = {"n_m": n_m, "K": K} if model == "Langmuir" else {"n_m": n_m, "K": K, "t": 0.7}
-                    pgrid = numpy.geomspace(0.02 / K, 60.0 / K, 60)
-                    sig = {"site": "enthalpy_sorption_whittaker", "input": "PointIsotherm", "model": model}
-                    key = ("whit-point", aname, temp, model)
+                    pgrid = numpy.geomspace(0.02 / K, min(60.0 / K, 0.98 * p_sat), 60)
+                    sig = {"site": "enthalpy_sorption_whittaker", "input": "PointIsotherm", "model": model, "stored": st["name"]}
+                    key = ("whit-point", aname, temp, model, st["name"])
                     tg = [0.3 * p_t, (p_t ** 2 * p_hi) ** (1 / 3), math.sqrt(p_t * p_hi), 0.8 * p_hi]
                     loads = [float(v) for v in forward(model, par, tg)]
+                    if st["pressure_mode"] == "absolute":
+                        pstored = pgrid * PFAC[st["pressure_unit"]] / 1e5
+                    else:       # p/p0 with the adsorbate's own saturation pressure (what the library divides by), in % for relative%
+                        pstored = pgrid / p_sat * (100.0 if st["pressure_mode"] == "relative%" else 1.0)
                     try:
-                        iso = pygaps.PointIsotherm(pressure=list(pgrid), loading=list(forward(model, par, pgrid)), material="enth-sample", adsorbate=aname, temperature=temp,
-                                                   pressure_mode="absolute", pressure_unit="Pa", loading_basis="molar", loading_unit="mmol", material_basis="mass", material_unit="g")
+                        iso = pygaps.PointIsotherm(pressure=list(pstored), loading=list(forward(model, par, pgrid)), material="enth-sample", adsorbate=aname,
+                                                   temperature=temp if st["temperature_unit"] == "K" else temp - 273.15, temperature_unit=st["temperature_unit"],
+                                                   pressure_mode=st["pressure_mode"], pressure_unit=None if st["pressure_unit"] == "none" else st["pressure_unit"],
+                                                   loading_basis="molar", loading_unit="mmol", material_basis="mass", material_unit="g")
+                    except Exception as e:
+                        raise MachineryError(f"could not build the point isotherm ({st['name']}): {e}")
+                    try:
                         with numpy.errstate(all="ignore"):
                             out = enthalpy_sorption_whittaker(iso, model=model, loading=list(loads))
                         fit = {k: float(v) for k, v in out["model_params"].items()}
@@ -212,7 +224,7 @@ def main(tier, seed):
                     tfit = fit.get("t", 1.0)
                     # loadings were chosen well inside their classes for the generating parameters; the closed form is evaluated for the description the method reports
                     queries.append(whit_query(ads, model, fit, tfit, temp, p_t, p_c, p_sat, hv_t, loads, out, nm=fit["n_m"]))
-                    meta.append(("whit", key, sig, {"adsorbate": aname, "T": temp, "generating_params": par, "reported_params": fit, "loading": loads,
+                    meta.append(("whit", key, sig, {"adsorbate": aname, "T": temp, "stored": st["name"], "generating_params": par, "reported_params": fit, "loading": loads,
                                                      "returned_loading": [float(v) for v in out["loading"]], "enthalpy": [float(v) for v in out["enthalpy_sorption"]]}))
 
     # ---- initial enthalpy point
@@ -289,7 +301,7 @@ def main(tier, seed):
                  "(model isotherm | 300-point isotherm) x 3 unit configurations, enumerated by spec/Enthalpy.tla ("
                  + ("thorough: all" if thorough else "quick: every 8th model / 24th point scenario")
                  + ", offset by the seed); 4 loadings each, every 9th run uses the default 50-point loading grid. Whittaker: N2/CO2/CH4 x 3 subcritical temperatures x "
-                   "(Langmuir, Toth t=0.6, 0.85) x 2 affinities with loadings placed below / at / inside / beyond the range where h_vap exists, plus fitted point isotherms. "
+                   "(Langmuir, Toth t=0.6, 0.85) x 2 affinities with loadings placed below / at / inside / beyond the range where h_vap exists, plus fitted point isotherms stored in 5 representations (Pa/bar/kPa, relative, relative%, K/degC). "
                    "Initial point: 12 branch layouts x 3 enthalpy patterns x 2 branches from the spec. distinct = distinct scenario; initial-point cases whose branch is empty are trivial")
     run.assume("K(T) = K0 exp(dH/RT) with R = 8.314462618 J/(mol K) is computed by the harness (input); ln and real powers of the Whittaker closed form are harness input, "
                "the formula itself (lambda + h_vap + RT, pressure of a loading, omission classes) is evaluated by TLC")
